@@ -139,6 +139,13 @@ def line_protocol_rules(chk):
     def inline(f, ct):
         return f.module is mod and f.cls is None
 
+    key_names, value_names = set(), set()
+    for f in [fi] + [g for g in prog.functions.values() if g.module is mod and g.cls is None]:
+        for n in ast.walk(f.node):
+            for g in getattr(n, "generators", []) or []:
+                if isinstance(g.target, ast.Tuple) and len(g.target.elts) == 2 and all(isinstance(e, ast.Name) for e in g.target.elts):
+                    key_names.add(g.target.elts[0].id)
+                    value_names.add(g.target.elts[1].id)
     results = {}
     seen = {"measurement": 0, "tag key": 0, "tag value": 0, "field key": 0, "string field value": 0, "plain field value": 0}
     verdict = {"O17.1": True, "O17.2": True, "O17.3": True, "O17.4": True}
@@ -151,7 +158,7 @@ def line_protocol_rules(chk):
                         x = term[2][0]
                         if coerced(x) is not None or (x[0] == "call" and x[1] == STR):
                             return True
-                        if x == ("bound", "key") or x == ("sym", "name"):
+                        if (x[0] == "bound" and x[1] in key_names and x[1] not in value_names) or x == ("sym", "name"):
                             return True
                         # which collection is being rendered: the last .items() call on the path
                         for e in reversed(path.events):
@@ -275,6 +282,8 @@ def analyse_output(chk, name, fi, o, label, tag_is_str, field_is_str, ts, seen, 
                 verdict["O17.1"] = False
                 continue
             K, V = kv
+            if V[0] == "call" and V[1] == STR and len(V[2]) == 1 and V[2][0][0] != "bound" and src != "tags":
+                V = V[2][0]  # str() of an already rendered field value is the identity
             kpos = "tag key" if src == "tags" else "field key"
             kb, kchain = peel_replace(K)
             kb2 = coerced(kb) or kb
@@ -333,14 +342,21 @@ def analyse_output(chk, name, fi, o, label, tag_is_str, field_is_str, ts, seen, 
     if ts:
         good = False
         for p in ts_parts:
+            x = None
             if p[0] == "binop" and p[1] == "%" and p[2][0] == "const" and p[2][1] in (" %d", " %i"):
                 x = p[3][1][0] if p[3][0] == "tuple" and len(p[3][1]) == 1 else p[3]
+            elif p[0] == "call" and p[1] == STR and len(p[2]) == 1 and p[2][0][0] == "call" and p[2][0][1] == ("glob", "ext:builtins.int"):
+                x = p[2][0]  # " " + str(int(timestamp * 1e9))
+            if x is not None:
                 if x[0] == "call" and x[1] == ("glob", "ext:builtins.int") and len(x[2]) == 1:
                     x = x[2][0]
                 if x[0] == "binop" and x[1] == "*" and ("sym", "timestamp") in (x[2], x[3]):
                     k = x[3] if x[2] == ("sym", "timestamp") else x[2]
                     if k[0] == "const" and k[1] in (1e9, 10**9):
                         good = True
+                        if parts[parts.index(p) - 1] != ("const", " ") and not (p[0] == "binop" and p[1] == "%"):
+                            chk.bad("O17.4", name, "the timestamp is not separated from the fields by a single space", node=fi.node, stmt="timestamp-separator")
+                            verdict["O17.4"] = False
                     else:
                         chk.bad("O17.4", name, "timestamp scaled by %s instead of 1e9 (seconds -> nanoseconds)" % show(k), node=fi.node, stmt="timestamp-scale")
                         verdict["O17.4"] = False
@@ -377,6 +393,8 @@ def line_formatter_rules(chk):
             return False
         return None
 
+    loop_paths = {}
+    has_record_loop = any(isinstance(n, ast.For) and "items" in util.unparse(n.iter) for n in ast.walk(fmt.node))
     for res_none in (False, True):
 
         def decide2(it, path, term, res_none=res_none):
@@ -408,6 +426,53 @@ def line_formatter_rules(chk):
             evs = o.path.events
             tags = kw.get("tags")
             fields = kw.get("fields")
+            iters = [e for e in evs if e[0] == "loop-iter"]
+            if iters or has_record_loop:
+                # loop idiom: for key, value in args.items(): if key in whitelist: tags[key] = value  elif key not in blacklist: fields[key] = value
+                if len(iters) != 1:
+                    continue
+                binds = [e[2] for e in evs if e[0] == "bind" and e[2][0] == "proj" and e[2][1][0] == "item"]
+                if len(binds) < 2 or "items" not in show(binds[0][1][1]):
+                    chk.undecided(rule, name, "record loop is not `for key, value in args.items()`", node=fmt.node)
+                    ok = False
+                    continue
+                key, value = [b for b in binds if b[2] == 0][0], [b for b in binds if b[2] == 1][0]
+                W = o.path.facts.get(("cmp", "in", key, ("attr", SELF, "_tags_whitelist")))
+                B = o.path.facts.get(("cmp", "in", key, ("attr", SELF, "_fields_blacklist")))
+                to_tags = [e for e in evs if e[0] == "store" and e[1] == ("sub", tags, key)]
+                to_fields = [e for e in evs if e[0] == "store" and e[1] == ("sub", fields, key)]
+                dest = "tags" if to_tags else ("fields" if to_fields else "dropped")
+                if (to_tags and to_tags[0][2] != value) or (to_fields and to_fields[0][2] != value):
+                    chk.bad(rule, name, "a record item is stored with a changed value", node=fmt.node, stmt="split-value")
+                    ok = False
+                want = "tags" if W is True else ("fields" if (W is False and B is False) else ("dropped" if (W is False and B is True) else None))
+                if want is None:
+                    chk.undecided(rule, name, "the tag/field decision does not test the whitelist and the blacklist (facts: whitelist %s, blacklist %s)" % (W, B), node=fmt.node)
+                    ok = False
+                elif dest != want:
+                    chk.bad(rule, name, "a record key that is %s the whitelist and %s the blacklist goes to %s (required: %s)" % ("in" if W else "not in", "in" if B else "not in", dest, want), node=fmt.node, stmt="split-decision", input="whitelist %s, blacklist %s" % (W, B))
+                    ok = False
+                if not (tags is not None and tags[0] == "call" and tags[1][0] == "attr" and tags[1][2] == "copy" and tags[1][1] == ("attr", SELF, "_default_tags")):
+                    if tags == ("attr", SELF, "_default_tags"):
+                        chk.bad(rule, name, "the formatter's shared default-tag mapping itself is used as the record's tags: tag values of one record leak into the defaults of all later records", node=fmt.node, stmt="default-tags-not-copied")
+                    else:
+                        chk.undecided(rule, name, "tags do not start from a copy of the default tags: %s" % show(tags), node=fmt.node)
+                    ok = False
+                loop_paths["n"] = loop_paths.get("n", 0) + 1
+                loop_paths.setdefault("seen", set()).add((W, B))
+                # O17.4 timestamp term (same as below)
+                tsv = kw.get("timestamp")
+                created = ("attr", ("sym", "record"), "created")
+                res = ("attr", SELF, "_resolution")
+                want_ts = ("binop", "*", ("binop", "//", created, res), res)
+                alt_ts = ("binop", "-", created, ("binop", "%", created, res))
+                if res_none and tsv != NONE:
+                    chk.bad("O17.4", name, "with resolution None the timestamp is %s instead of being omitted" % show(tsv), node=fmt.node, stmt="ts-none")
+                    ok = False
+                if not res_none and tsv not in (want_ts, alt_ts):
+                    chk.bad("O17.4", name, "the record time is %s, not the time rounded down to the resolution (created // r * r)" % show(tsv), node=fmt.node, stmt="ts-floor")
+                    ok = False
+                continue
             upd = [e for e in evs if e[0] == "call" and e[1][1][0] == "attr" and e[1][1][2] == "update" and e[1][1][1] == tags]
             tags_ok = False
             if tags is not None and tags[0] == "call" and tags[1][0] == "attr" and tags[1][2] == "copy" and tags[1][1] == ("attr", SELF, "_default_tags") and len(upd) == 1:
@@ -473,6 +538,9 @@ def line_formatter_rules(chk):
                 if tsv not in (want, alt):
                     chk.bad("O17.4", name, "the record time is %s, not the time rounded down to the resolution (created // r * r)" % show(tsv), node=fmt.node, stmt="ts-floor")
                     ok = False
+    if loop_paths and loop_paths.get("seen") != {(True, None), (False, False), (False, True)} and not {(True, None), (False, False), (False, True)} <= loop_paths.get("seen", set()):
+        chk.undecided(rule, name, "loop idiom: only the decisions %s were explored" % sorted(loop_paths.get("seen", ()), key=repr), node=fmt.node)
+        ok = False
     # __init__: blacklist = whitelist | record attributes
     ok_bl = False
     for st in ast.walk(init.node):
@@ -554,7 +622,88 @@ def json_rules(chk):
         chk.ok(rule, name, "defaults.copy(), then time (iff enabled), then message, then update(args); one json.dumps of that mapping is returned", node=fmt.node)
 
 
+def formatter_configuration(chk):
+    prog = chk.program
+    # ---- JSON: the time is added unless a false, non-None datefmt disables it
+    rule = "O17.7"
+    cls = prog.cls(JSON_FMT)
+    init = prog.lookup_method(cls, "__init__")
+    DF = ("attr", SELF, "datefmt")
+    got = {}
+    for kind in ("none", "falsy", "truthy"):
+
+        def decide(it, path, term, kind=kind):
+            if term == ("isnone", DF):
+                return kind == "none"
+            if term in (DF, ("truthy", DF)):
+                return kind == "truthy"
+            if term[0] == "call" and term[1] == ISINSTANCE:
+                return True
+            if term[0] in ("attr", "truthy") and "_defaults" in show(term):
+                return True
+            return None
+
+        for o in Interp(prog, init, decide=decide).run():
+            chk.count()
+            if o.kind not in ("normal", "return"):
+                continue
+            st = [e[2] for e in o.path.events if e[0] == "store" and e[1] == ("attr", SELF, "_add_time")]
+            if not st:
+                continue
+            v = st[-1]
+            t = Interp(prog, init, decide=decide).truth(v, o.path)
+            if t is None and v[0] == "call" and v[1] == ("glob", "ext:builtins.bool") and len(v[2]) == 1:
+                t = Interp(prog, init, decide=decide).truth(v[2][0], o.path)
+            got[kind] = t
+    want = {"none": True, "falsy": False, "truthy": True}
+    if not got:
+        chk.undecided(rule, init.qual, "the time switch of the JSON formatter is not set in __init__", node=init.node)
+    elif got != want:
+        bad = {k: got.get(k) for k in want if got.get(k) != want[k]}
+        chk.bad(rule, init.qual, "the time is %s for datefmt %s (documented: the default None and every true format add the time, only a false non-None value disables it)" % (", ".join("added" if v else ("undetermined" if v is None else "omitted") for v in bad.values()), "/".join(bad)), node=init.node, stmt="add-time %s" % sorted(bad), input="datefmt partition none/falsy/truthy")
+    else:
+        chk.ok(rule, init.qual, "time added for datefmt None or true, omitted for a false non-None datefmt", node=init.node, input="datefmt partition none/falsy/truthy")
+    # ---- line protocol: whitelist and default tags derived from the `tags` argument
+    rule = "O17.5"
+    cls = prog.cls(LINE_FMT)
+    init = prog.lookup_method(cls, "__init__")
+    TAGS = ("sym", "tags")
+    MAPPING = ("glob", "ext:collections.abc.Mapping")
+    ok = True
+    for kind in ("none", "mapping", "iterable"):
+
+        def decide(it, path, term, kind=kind):
+            if term == ("isnone", TAGS):
+                return kind == "none"
+            if term[0] == "call" and term[1] == ISINSTANCE and term[2][0] == TAGS:
+                return kind == "mapping"
+            if term in (TAGS, ("truthy", TAGS)):
+                return None if kind != "none" else False
+            return None
+
+        for o in Interp(prog, init, decide=decide).run():
+            chk.count()
+            if o.kind not in ("normal", "return"):
+                continue
+            if any(e[0] in ("branch", "fork") and e[-1] == "forked" for e in o.path.events):
+                continue  # truthiness forks of `tags` (e.g. `tags or {}`) are explored separately
+            st = {e[1][2]: strip_sites(e[2]) for e in o.path.events if e[0] == "store" and e[1][1] == SELF}
+            d, w = st.get("_default_tags"), st.get("_tags_whitelist")
+            empty = lambda x: x in (("dict", ()), ("call", ("glob", "ext:builtins.dict"), (), ()), ("call", ("glob", "ext:builtins.set"), (), ()), ("set", ()))  # noqa: E731
+            want_d = TAGS if kind == "mapping" else None
+            want_w = ("call", ("glob", "ext:builtins.set"), (TAGS,), ()) if kind != "none" else None
+            if (want_d is None and not empty(d)) or (want_d is not None and d not in (want_d, ("call", ("glob", "ext:builtins.dict"), (TAGS,), ()))):
+                chk.bad(rule, init.qual, "with tags given as %s the default tags are %s" % (kind, show(d) if d else "unset"), node=init.node, stmt="default-tags %s" % kind, input=kind)
+                ok = False
+            if (want_w is None and not empty(w)) or (want_w is not None and w not in (want_w, ("call", ("glob", "ext:builtins.set"), (("call", ("attr", TAGS, "keys"), (), ()),), ()))):
+                chk.bad(rule, init.qual, "with tags given as %s the tag whitelist is %s (required: the keys of a mapping / the items of an iterable)" % (kind, show(w) if w else "unset"), node=init.node, stmt="whitelist %s" % kind, input=kind)
+                ok = False
+    if ok:
+        chk.ok(rule, init.qual, "whitelist = set(tags) for mappings and iterables; defaults = the mapping itself, else empty", node=init.node, input="tags None / mapping / iterable")
+
+
 def run(chk):
+    chk.guard("O17.7", JSON_FMT, formatter_configuration, chk)
     chk.guard("O17.1", LINE, line_protocol_rules, chk)
     chk.guard("O17.5", LINE_FMT, line_formatter_rules, chk)
     chk.guard("O17.6", JSON_FMT, json_rules, chk)
